@@ -387,7 +387,8 @@ class Domain(BasicDomain):
             boundaries.append(bd)
 
         connectivity = []
-        for _,(minus, plus) in d_connectivity.items():
+        for _,cn in d_connectivity.items():
+            minus, plus = cn[0], cn[1]
             minus_name = minus['patch']
             minus_axis = int(minus['axis'])
             minus_ext  = int(minus['ext'])
@@ -398,6 +399,11 @@ class Domain(BasicDomain):
             plus_ext  = int(plus['ext'])
             plus_patch_i = patch_index[plus_name]
             interface = ((minus_patch_i, minus_axis, minus_ext),(plus_patch_i, plus_axis, plus_ext))
+
+            # optional third entry: orientation of the interface
+            # (files written without it get the default orientation in Domain.join)
+            if len(cn) > 2:
+                interface = (*interface, cn[2])
 
             connectivity.append(interface)
 
@@ -539,11 +545,22 @@ class Domain(BasicDomain):
             connectivity[k] = v
 
         # ... boundary
-        boundaries = Union(*[b for p in patches for b in p.boundary]).complement(Union(*boundaries))
+        # (a patch may have no boundary at all, or a single Boundary instead of a Union)
+        joined         = boundaries
+        all_boundaries = []
+        for p in patches:
+            if isinstance(p.boundary, Union):
+                all_boundaries += list(p.boundary.as_tuple())
+            elif p.boundary is not None:
+                all_boundaries.append(p.boundary)
+
+        boundaries = Union(*[b for b in all_boundaries if b not in joined])
         if boundaries is None:
             boundaries = ()
-        else :
+        elif isinstance(boundaries, Union):
             boundaries = boundaries.as_tuple()
+        else:
+            boundaries = (boundaries,)
 
         # ... interiors
         interiors       = Union(*[p.interior for p in patches])
